@@ -53,6 +53,56 @@ ASSUMPTIONS = []
 BOUNDS = {}
 OUTSIDE = []
 
+# ---------------------------------------------------------------------------------------------------- engine adjustments (this check's processes only)
+#
+# (1) The import hook loads EVERY module under exabgp.bgp (import_tree), also the ones nothing imports in the product
+# (community/extended/bandwidth.py today): their decoders would be registered in the symbolic worker and nowhere else.
+# The registries are pruned back to what a plain interpreter registers after importing what the application imports.
+
+
+def _production_modules():
+    from sx import hook as _hook
+    if not getattr(_hook, '_INSTALLED', False):
+        return None
+    import subprocess
+    code = ("import sys; from kits import session; import exabgp.bgp.message.update, exabgp.reactor.protocol; "
+            "print(' '.join(m for m in sys.modules if m.startswith('exabgp.')))")
+    env = dict(os.environ)
+    env['exabgp_log_enable'] = 'false'
+    out = subprocess.run([sys.executable, '-c', code], env=env, capture_output=True, text=True, cwd=os.path.dirname(os.path.dirname(os.path.abspath(__file__))))
+    mods = set(out.stdout.split())
+    if len(mods) < 50:
+        raise RuntimeError('C03: cannot list the modules of a plain interpreter: %s' % out.stderr[-400:])
+    return mods
+
+
+PRUNED = []
+
+
+def _prune_registries():
+    prod = _production_modules()
+    if prod is None:
+        return
+    for name, mod in list(sys.modules.items()):
+        if not name.startswith('exabgp.') or mod is None:
+            continue
+        for c in list(vars(mod).values()):
+            if not isinstance(c, type) or not getattr(c, '__module__', '').startswith('exabgp'):
+                continue
+            for an, reg in list(vars(c).items()):
+                if not isinstance(reg, dict) or not (an.startswith('registered') or an in ('_pmsi_known', '_DISPATCH')):
+                    continue
+                for k in list(dict.keys(reg)):
+                    v = dict.__getitem__(reg, k)
+                    kl = v if isinstance(v, type) else (v[-1] if isinstance(v, tuple) and v and isinstance(v[-1], type) else getattr(v, '__self__', None))
+                    m = getattr(kl, '__module__', None)
+                    if isinstance(m, str) and m.startswith('exabgp.') and m not in prod:
+                        dict.__delitem__(reg, k)
+                        PRUNED.append('%s.%s[%s] (%s)' % (c.__name__, an, k, m))
+
+
+_prune_registries()
+
 # ---------------------------------------------------------------------------------------------------- RFC tables
 #
 # (code, subcode) pairs a NOTIFICATION may carry.  RFC 4271 4.5: "If no appropriate Error Subcode is defined, then a zero
@@ -165,6 +215,84 @@ def _decode(self, encoding='utf-8', errors='strict'):
 
 _core.SBytes.decode = _decode
 
+# IteDict.get builds its If-chain (129 z3 terms for CIDR._mask_to_bytes) on every call; the decoders and the renderings
+# ask CIDR.size(mask) dozens of times per NLRI with the same mask term: memoised per (table, key term, bounds, default).
+# Same term as the engine would build; the tables are static after import.
+_ite_get = _core.IteDict.get
+_ITE_MEMO = {}
+
+
+def _ite_get_memo(self, k, d=None):
+    if isinstance(k, SInt):
+        key = (id(self), len(self), k.e.get_id(), k.lo, k.hi, d if isinstance(d, int) else None)
+        hit = _ITE_MEMO.get(key)
+        if hit is not None and isinstance(d, int):
+            return hit[1]
+        r = _ite_get(self, k, d)
+        if isinstance(d, int) and isinstance(r, SInt):
+            if len(_ITE_MEMO) > 5000:
+                _ITE_MEMO.clear()
+            _ITE_MEMO[key] = (k.e, r)     # the key term is kept alive: its id cannot be reused
+        return r
+    return _ite_get(self, k, d)
+
+
+_core.IteDict.get = _ite_get_memo
+
+# struct.unpack of a symbolic IEEE-754 field ('!f', '!d': BGP-LS bandwidths, link-bandwidth community).  The engine has no
+# model (SymexUnsupported).  For this property the VALUE is formatting, what can matter is its class: int() of an infinity
+# raises OverflowError, of a NaN ValueError.  So: fork on {NaN, infinity, finite} (conditions on the exponent / mantissa
+# octets), then the field takes the octets of the path's model (sampled, like every rendered value).
+import types as _types
+from sx import shims as _shims
+
+
+def _float_fields(fmt, data):
+    fields = _shims._parse_fmt(fmt)
+    if not any(ch in 'fd' for ch, _ in fields) or sum(sz for _, sz in fields) != len(data.items):
+        return data
+    items = list(data.items)
+    pos = 0
+    for ch, sz in fields:
+        chunk = items[pos:pos + sz]
+        if ch in 'fd' and not all(type(c) is int for c in chunk):
+            if ch == 'f':
+                exp_ones = s_and(chunk[0] % 128 == 127, chunk[1] >= 128)
+                man_zero = s_and(chunk[1] % 128 == 0, *[c == 0 for c in chunk[2:]])
+            else:
+                exp_ones = s_and(chunk[0] % 128 == 127, chunk[1] >= 240)
+                man_zero = s_and(chunk[1] % 16 == 0, *[c == 0 for c in chunk[2:]])
+            if bool(exp_ones):
+                bool(man_zero)
+            eng = _core.engine()
+            items[pos:pos + sz] = [eng.sample(c) if isinstance(c, SInt) else c for c in chunk]
+        pos += sz
+    return SBytes(items)
+
+
+# float arithmetic on a symbolic integer (24-bit loss * 0.000003 ...): the value is formatting, it takes the model's value
+_sint_mul = SInt.__mul__
+
+
+def _mul_float(self, o):
+    if isinstance(o, float):
+        return float(_core.engine().sample(self)) * o
+    return _sint_mul(self, o)
+
+
+SInt.__mul__ = _mul_float
+SInt.__rmul__ = _mul_float
+
+if not hasattr(_shims, '_c03_orig_unpack'):
+    _shims._c03_orig_unpack = _types.FunctionType(_shims.sym_unpack.__code__, _shims.sym_unpack.__globals__, 'sym_unpack_orig')
+    _shims._c03_float_fields = _float_fields
+
+    def _unpack_with_floats(fmt, data):
+        if _isinstance(data, SBytes):
+            data = _c03_float_fields(fmt, data)   # noqa: F821  (names of the shims module, where this code runs)
+        return _c03_orig_unpack(fmt, data)        # noqa: F821
+    _shims.sym_unpack.__code__ = _unpack_with_floats.__code__
+
 _DEBUG = bool(os.environ.get('C03_DEBUG'))
 STEP_CAP = 60000
 STEPS_PER_BYTE = 400
@@ -251,10 +379,8 @@ def force(msg, neg):
         for r in uc.announces:
             n = r.nlri
             n.json()
-            n.json(compact=True)
             str(n)
             n.extensive()
-            repr(n)
             n.index()
             str(r.nexthop)
         for n in uc.withdraws:
@@ -401,7 +527,7 @@ def h_free_attrs(ctx, lengths, sess='asn4'):
 # ---------------------------------------------------------------------------------------------------- builders
 #
 # A builder makes the items of one message body from a SOURCE F: F.sym(name, n) n payload bytes, F.near(name, n, size)
-# a length field in n..n+2 (the declared length may overrun what follows), F.pick(name, options).
+# a length field in n..n+1 (the declared length may overrun what follows), F.pick(name, options).
 # With the harness' source the payload is symbolic; with a Probe it is a constant filler: the probe decodes the body
 # concretely for every candidate size and keeps the sizes at which the outcome class changes (the boundaries of the
 # decoder's own length checks) - that only CHOOSES the sizes explored, every verdict is the symbolic run's.
@@ -418,7 +544,7 @@ class Src:
     def sym(self, name, n):
         return K.sym(self.ctx, name, n)
 
-    def near(self, name, n, size=1, slack=2):
+    def near(self, name, n, size=1, slack=1):
         top = 256 ** size - 1
         # never BELOW n: a shorter declared length only re-reads the tail as one more TLV of symbolic type (the decoder
         # itself sees what it sees at the smaller size L), which enumerates type codes instead of deciding anything
@@ -433,6 +559,9 @@ class Src:
 
     def byte(self, name):
         return self.ctx.byte(name)
+
+    def int(self, name, lo, hi):
+        return self.ctx.int(name, lo, hi)
 
 
 class Probe:
@@ -450,6 +579,9 @@ class Probe:
 
     def byte(self, name):
         return self.fill
+
+    def int(self, name, lo, hi):
+        return lo
 
 
 def tlv(flag, code, value):
@@ -552,7 +684,7 @@ class Plan:
             if (L > 0 and cls[L] != cls[L - 1]) or (L < top and cls[L] != cls[L + 1]):
                 edge.add(L)
         self.accepted = [L for L in range(0, top + 1) if any(o.startswith('ok') and '65535' not in o and '65534' not in o for o in cls[L])]
-        keep = (self.keep or 12) * (2 if th else 1)
+        keep = (self.keep or 8) * (3 if th else 1)
         want = sorted(set(x for x in self.base if x <= top) | edge)
         if len(want) > keep:
             # keep the base sizes and spread the rest over the boundaries found
@@ -607,10 +739,11 @@ def attribute_plans():
             keys = sorted(reg.registered_extended) + [(5, 99)]
 
             def b_ext(F, L, flag=flag, code=code, keys=keys, size=size):
+                """one community of each registered (type, subtype): the high nibble of the type octet (IANA authority /
+                transitive bits, not part of the registry key) and the value symbolic"""
                 t, sub = F.pick('type', keys)
-                one = [F.byte('hi') // 16 * 16 + t if False else F.byte('hi-nibble') % 16 * 0 + t, sub] + F.sym('v', size - 2)
-                return upd_attr(flag, code, one + F.sym('w', L))
-            plans.append(Plan('attr:%d:types' % code, b_ext, top=size, keep=3, base=(0, 1, size), cover=('decoded',), weight=60))
+                return upd_attr(flag, code, [F.int('hi', 0, 15) * 16 + t, sub] + F.sym('v', size - 2))
+            plans.append(Plan('attr:%d:types' % code, b_ext, top=0, keep=1, base=(0,), cover=('decoded',), weight=60))
         elif code == 22:
             for t in sorted(PMSI._pmsi_known) + [99]:
                 plans.append(Plan('attr:22:tunnel-%d' % t, lambda F, L, flag=flag, t=t: upd_attr(flag, 22, F.sym('fl', 1) + [t] + F.sym('label', 3) + F.sym('v', L)), top=20, keep=8))
@@ -670,6 +803,14 @@ def b_ls_sub(F, L, flag, t, st):
     return upd_attr(flag, 29, be(t, 2) + be(len(inner), 2) + inner)
 
 
+def b_one(F, L):
+    """ONE prefix-like NLRI of L octets after its length octet: the length octet is symbolic inside the range that needs
+    exactly these L octets (8L-7 .. 8L bits), so the octets are not re-read as further NLRI (that is the free plan)"""
+    if L == 0:
+        return [0]
+    return [F.int('bits', min(255, 8 * L - 7), min(255, 8 * L))] + F.sym('n', L)
+
+
 def nlri_plans(th=False):
     from exabgp.bgp.message.update.nlri.evpn.nlri import EVPN
     from exabgp.bgp.message.update.nlri.mup.nlri import MUP
@@ -680,19 +821,23 @@ def nlri_plans(th=False):
 
     variants = [('reach', 'asn4'), ('unreach', 'asn4'), ('addpath-reach', 'addpath')] + ([('addpath-unreach', 'addpath')] if th else [])
 
-    def add(name, nlri, afi, safi, **kw):
-        """through MP_REACH (announce) and MP_UNREACH (withdraw); with ADD-PATH the path identifier precedes the NLRI"""
+    def add(name, nlri, afi, safi, inner=False, **kw):
+        """through MP_REACH (announce) and MP_UNREACH (withdraw); with ADD-PATH the path identifier precedes the NLRI
+        (inner: a sub-TLV of the NLRI, the wrappers were varied by the plan of the NLRI itself: MP_REACH only)"""
         def build(F, L, tag):
             n = (F.sym('pid', 4) if tag.startswith('addpath') else []) + nlri(F, L)
             return upd_reach(afi, safi, n) if tag.endswith('unreach') is False else upd_unreach(afi, safi, n)
-        plans.append(Plan(name, build, variants=variants, **kw))
+        plans.append(Plan(name, build, variants=variants[:1] if inner and not th else variants, **kw))
 
     for afi_, safi_ in families():
         a, s = int(afi_), int(safi_)
         if (a, s) in UNCONFIGURABLE:
             continue   # cannot be negotiated: MP_REACH/MP_UNREACH of the family is refused before its decoder runs (free:not-negotiated)
         fam = '%s-%s' % (afi_, safi_)
-        add('nlri:%s' % fam, lambda F, L: F.sym('n', L), a, s, top=44, weight=40)
+        routed = (a, s) == (25, 70) or s in (5, 85, 133, 134) or a == 16388
+        add('nlri:%s' % fam, lambda F, L: F.sym('n', L), a, s, top=5 if not routed else 6, keep=6, weight=40)
+        if not routed:
+            add('nlri:%s:one' % fam, lambda F, L: b_one(F, L), a, s, top=44, keep=8, weight=30)
         if (a, s) == (25, 70):
             for code in sorted(EVPN.registered_evpn) + [0x7f]:
                 add('nlri:%s:type-%d' % (fam, code), lambda F, L, code=code: [code] + F.near('len', L) + F.sym('n', L), a, s, top=64, weight=30)
@@ -721,16 +866,16 @@ def nlri_plans(th=False):
                         rd = F.sym('rd', 8) if vpn else []
                         node = be(512, 2) + be(4, 2) + F.sym('as', 4) + be(515, 2) + be(4, 2) + F.sym('rid', 4)
                         first = be(256, 2) + be(len(node), 2) + node if t != 256 else []
-                        body = [F.pick('proto', (3, 2))] + F.sym('ident', 8) + first + be(t, 2) + F.near('tl', L, 2) + F.sym('v', L)
+                        body = [3] + F.sym('ident', 8) + first + be(t, 2) + F.near('tl', L, 2) + F.sym('v', L)
                         return be(code, 2) + be(len(rd) + len(body), 2) + rd + body
-                    add('nlri:%s:type-%d:tlv-%d' % (fam, code, t), b_desc, a, s, top=24, keep=8, weight=20, group='nlri:%s:type-%d:tlvs' % (fam, code))
+                    add('nlri:%s:type-%d:tlv-%d' % (fam, code, t), b_desc, a, s, inner=True, top=24, keep=6, weight=20, group='nlri:%s:type-%d:tlvs' % (fam, code))
         elif s in (133, 134):
             comps = sorted(flow.decode[AFI.from_int(a)]) + [0, 99]
             for comp in comps:
                 def b_flow(F, L, comp=comp, vpn=(s == 134)):
                     rd = F.sym('rd', 8) if vpn else []
                     return F.near('len', L + 1 + len(rd)) + rd + [comp] + F.sym('n', L)
-                add('nlri:%s:component-%d' % (fam, comp), b_flow, a, s, top=10, keep=8, weight=60, group='nlri:%s:components-%d' % (fam, comps.index(comp) // 5))
+                add('nlri:%s:component-%d' % (fam, comp), b_flow, a, s, inner=True, top=4, keep=5, weight=60, group='nlri:%s:components-%d' % (fam, comps.index(comp) // 5))
     # IPv4 unicast in the sections of the UPDATE itself
     plans.append(Plan('nlri:ipv4-unicast:withdrawn', lambda F, L: be(L, 2) + F.sym('n', L) + [0, 0], top=12))
     plans.append(Plan('nlri:ipv4-unicast:announced', lambda F, L: K.body([], BASE_ATTRS + [NEXT_HOP], [F.sym('n', L)]), top=12))
